@@ -486,6 +486,9 @@ impl<T: Send + Clone> SpmcShared<T> {
 pub struct BoundedSyncSender<T: Send + Clone> {
   pub(crate) shared: Arc<SpmcShared<T>>,
   pub(crate) closed: AtomicBool,
+  // Single-producer contract: the send forms take `&self` and the producer side of the ring is
+  // unsynchronised, so the handle must not be shareable across threads (`Send` but not `Sync`).
+  pub(crate) _not_sync: std::marker::PhantomData<std::cell::Cell<()>>,
 }
 unsafe impl<T: Send + Clone> Send for BoundedSyncSender<T> {}
 
@@ -521,6 +524,7 @@ pub(crate) fn new_channel<T: Send + Clone>(capacity: usize) -> (BoundedSyncSende
     BoundedSyncSender {
       shared: Arc::clone(&shared),
       closed: AtomicBool::new(false),
+      _not_sync: std::marker::PhantomData,
     },
     BoundedSyncReceiver {
       shared,
